@@ -18,7 +18,7 @@ def shape(node, depth=0):
 
 
 def one_case(ctx, i, prof, kind, layout_fuzz=False, required_tags=None,
-             pop_fn=None, prog_fn=None):
+             pop_fn=None, prog_fn=None, made_under=None):
     rng = ctx.rng(kind, i)
     pop = (pop_fn or gen.random_population)(rng)
     try:
@@ -31,7 +31,8 @@ def one_case(ctx, i, prof, kind, layout_fuzz=False, required_tags=None,
         return None
     toks = render.tokens(prog, rng, redundant=0.25, brace_single=0.1)
     text = render.canonical(toks)
-    out = diffrun.execute(prog, pop, decisions, text)
+    out = diffrun.execute(prog, pop, decisions, text,
+                          made_under=made_under(rng) if made_under else None)
     out.prog, out.pop, out.decisions, out.tags = prog, pop, decisions, tags
     return out
 
